@@ -5,7 +5,7 @@ use any_vec::{AnyVec, SatisfyTraits};
 
 use crate::caps::{Consumer, InsertC, PushC, SpliceC, TrX, MX};
 use crate::elem::{self, Elem};
-use crate::exec::{guarded, snap, Caught, Out, World};
+use crate::exec::{guarded, snap, snap_matches, Caught, Out, World};
 use crate::types::*;
 
 pub const LZ_SRCS: u8 = 6;
@@ -288,3 +288,40 @@ impl<T: Elem + SatisfyTraits<Tr>, M: MX, Tr: TrX + ?Sized> World<T, M, Tr> {
 
 #[allow(dead_code)]
 fn _unused<Tr: ?Sized + TrX, M: MX>(_: &AnyVec<Tr, M>) where PushC: Consumer<Tr, M> {}
+
+impl<T: Elem + SatisfyTraits<Tr>, M: MX, Tr: TrX + ?Sized> World<T, M, Tr> {
+    /// Move the vector value bitwise into slot `slot` of a heap arena (slots lie `size_of::<AnyVec>()` apart, so two of them
+    /// differ in their address residues), read everything back there, run one follow-up operation, read back again, move it home.
+    /// A vector is an ordinary movable value: contents, views and behaviour may not depend on its address (self-referential caches,
+    /// offsets computed from the address at construction time).
+    pub fn do_relocate(&mut self, slot: u8, then: u8, out: &mut Out) {
+        use std::mem::MaybeUninit;
+        let mut arena: Box<[MaybeUninit<any_vec::AnyVec<Tr, M>>; 3]> = { let _w = elem::WindowOff::new(); Box::new([MaybeUninit::uninit(), MaybeUninit::uninit(), MaybeUninit::uninit()]) };
+        let k = (slot % 3) as usize;
+        let home = &mut self.a as *mut any_vec::AnyVec<Tr, M>;
+        unsafe { arena[k].as_mut_ptr().write(std::ptr::read(home)); }
+        {
+            let v: &mut any_vec::AnyVec<Tr, M> = unsafe { &mut *arena[k].as_mut_ptr() };
+            let s = snap::<T, Tr, M>(v);
+            if v.len() != self.ma.len() || !snap_matches::<T>(&s, &self.ma) { out.fail(Class::Vec, "moved-seq-mismatch", format!("after moving the vector value to another address it reads {:?}, model {:?}", s, self.ma)); }
+            let base = v.downcast_ref::<T>().map(|t| t.as_ptr() as usize).unwrap_or(0);
+            if base % T::ALIGN == 0 {
+                let b = v.as_bytes();
+                if b.as_ptr() as usize != base || b.len() != v.len() * T::SIZE { out.fail(Class::Vec, "views-incoherent", format!("moved vector: as_bytes covers {:#x}+{} but the typed slice is {base:#x}+{}x{}", b.as_ptr() as usize, b.len(), v.len(), T::SIZE)); }
+                if T::SIZE != 0 && !self.ma.is_empty() && out.fails.is_empty() {
+                    let id = elem::id_of_bytes(&b[0..T::SIZE]);
+                    if !crate::exec::mv_match(self.ma[0], id) { out.fail(Class::Vec, "moved-seq-mismatch", format!("moved vector: the byte view starts with id {id}, model {:?}", self.ma[0])); }
+                }
+            }
+            if out.fails.is_empty() {
+                let World { ma, .. } = self;
+                crate::exec_clone::follow_up_pub::<T, Tr, M>(v, ma, then, out);
+                let s2 = snap::<T, Tr, M>(v);
+                if !out.faulted && !snap_matches::<T>(&s2, ma) { out.fail(Class::Vec, "moved-seq-mismatch", format!("moved vector after operation {then}: {:?}, model {:?}", s2, ma)); }
+            }
+        }
+        unsafe { std::ptr::write(home, std::ptr::read(arena[k].as_ptr())); }
+        { let _w = elem::WindowOff::new(); drop(arena); }
+        out.outcome.push_str("ok");
+    }
+}
